@@ -108,3 +108,18 @@ func AliasesGlobalTable(h *holder, name string) {
 		h.widths = w
 	}
 }
+
+type deck struct{ slides []string }
+
+// ParallelAfterSkip violates R18.5 PARALLEL-INDEX.
+func ParallelAfterSkip(d *deck, files []string, ok func(string) bool, attach func(string, int)) {
+	for i := range files {
+		if !ok(files[i]) {
+			continue
+		}
+		d.slides = append(d.slides, files[i])
+	}
+	for i := range d.slides {
+		attach(files[i], i)
+	}
+}
